@@ -829,10 +829,18 @@ fn gen(seed: u64, run: u64, focus: &str, tier: Tier) -> Plan {
         };
     }
     let enumerate = rng.chance(1, 40);
+    // now and then as many (small) chunks as a xorb may legally hold: more than any table preallocation clamp
+    let huge = !enumerate && rng.chance(1, if tier == Tier::Quick { 400 } else { 100 });
     let spec = XorbSpec {
         seed: rng.next_u64(),
-        n_chunks: if enumerate { rng.range(1, 4) as u32 } else { rng.log_range(1, 12) as u32 },
-        len_style: if enumerate { 0 } else { rng.below(3) as u32 },
+        n_chunks: if enumerate {
+            rng.range(1, 4) as u32
+        } else if huge {
+            *rng.pick(&[1151u32, 1152, 1153, 2048, 4096, 8192])
+        } else {
+            rng.log_range(1, 12) as u32
+        },
+        len_style: if enumerate || huge { 0 } else { rng.below(3) as u32 },
         content_mix: rng.below(4) as u32,
         scheme: if rng.chance(2, 3) { 0 } else { rng.below(4) as u32 },
     };
